@@ -5,6 +5,12 @@ V = "/verif"
 props = [json.loads(l) for l in open(V + "/properties.jsonl")]
 
 CLAIMED = {
+ "C03": dict(
+    text="GUARD/ORDER rules over the recovery core as built for e2fsck and for debugfs, and a SIBLING rule over the two front-ends: filesystem writes only in PASS_REPLAY, revoke scan only in PASS_REVOKE, end of log decided only in PASS_SCAN, "
+         "passes in order each only after the previous succeeded (path-sensitive); each replay write gated by !test_revoke(block, transaction being replayed) and a verifying tag checksum; the revoke table keeps the newest revoking transaction and "
+         "a later transaction is not revoked (comparator argument roles); bad magic / wrong sequence / unknown type end the scan; escape restore between copy and write; needs_recovery cleared after recovery; "
+         "effect skeletons (device I/O calls, stores to journal state) of 15 sibling function pairs agree up to a listed set of accepted differences. Decides the control structure for every journal content; not tag-size/wrap arithmetic or checksum values.",
+    ref="§4 C03", technique="static analysis: edge-gating reachability over clang CFGs, comparator-role checks, path-sensitive exploration, sibling effect-skeleton comparison"),
  "C02": dict(
     text="TABLE and path rules: every problem code that can reach fix_problem() (constants, constant-valued locals, constants passed to helpers) has exactly one problem_table row, "
          "the zero terminator is last, PR_AFTER_CODE/latch references resolve; per row the (has prompt, PR_NO_OK) pair equals the reference recorded from the pinned tree; "
